@@ -113,6 +113,9 @@ func c14Mutate(i *Interpreter, which int) bool {
 		if n == 0 || sols.Err() != nil {
 			ok = false
 		}
+		if err := sols.Err(); err != nil {
+			_ = err.Error() // formatting an error is part of ordinary use of the API
+		}
 		sols.Close()
 	}
 	switch which {
@@ -310,6 +313,7 @@ var c14Programs = []struct{ text, query, want string }{
 	{"fact_c14(brand_new_c14).", "fact_c14(brand_new_c14), fact_c14(X), atom_length(X, L), write(X-L), nl.", "brand_new_c14-13\n"},
 	{"edge_c14(na_c14, nb_c14). edge_c14(nb_c14, nc_c14). path_c14(X, Y) :- edge_c14(X, Y). path_c14(X, Z) :- edge_c14(X, Y), path_c14(Y, Z).",
 		"forall_c14(path_c14(na_c14, Y), (write(Y), nl)).", "nb_c14\nnc_c14\n"},
+	{"len_c14(X, L) :- catch(atom_length(X, L), error(E, _), (write(E), nl)).", "len_c14(f(g(h(1))), _), catch(atom_length(1, foo), Ball, true), atom_length(L, _).", "ERR"},
 	{":- dynamic(cnt_c14/1). cnt_c14(0).", "retract(cnt_c14(N)), M is N + 1, assertz(cnt_c14(M)), cnt_c14(V), write(V), nl, atom_chars(A, \"made_c14\"), write(A), nl, A == made_c14.", "1\nmade_c14\n"},
 }
 
@@ -340,6 +344,10 @@ func H_C14_two(inst int) {
 		e := ""
 		if err != nil {
 			e = err.Error()
+		}
+		if p.want == "ERR" {
+			// this program ends in an uncaught instantiation error: the solo expectation is that error text
+			return res{ok: e == "error(instantiation_error,atom_length/2)", err: "", out: "ERR"}
 		}
 		return res{ok: ok, err: e, out: out.String()}
 	}
